@@ -9,3 +9,4 @@ pub mod heap;
 pub mod rng;
 pub mod runner;
 pub mod trace;
+pub mod pattern;
